@@ -42,6 +42,9 @@ static void corpus_stream(void)
         r = crypto_stream_xchacha20_xor_ic(O, M, l, N24, 0xfffffffeULL, K); rec("xchacha20_xor_ic", (long) l, 1, r, O, l);
         r = crypto_stream_salsa20_xor_ic(O, M, l, N24, 0xfffffffeULL, K); rec("salsa20_xor_ic", (long) l, 1, r, O, l);
         r = crypto_stream_xsalsa20_xor_ic(O, M, l, N24, 0xfffffffeULL, K); rec("xsalsa20_xor_ic", (long) l, 1, r, O, l);
+        { static const uint64_t ICS[4] = { 0x100000000ULL, 0x0123456789abcdefULL, 0x8000000000000000ULL, 0xffffffff00000001ULL }; int q;      /* initial counters with a non-zero high word */
+          for (q = 0; q < 4; q++) { r = crypto_stream_chacha20_xor_ic(O, M, l, N24, ICS[q], K); rec("chacha20_xor_ic64", (long) l, q, r, O, l); r = crypto_stream_xchacha20_xor_ic(O, M, l, N24, ICS[q], K); rec("xchacha20_xor_ic64", (long) l, q, r, O, l);
+                                    r = crypto_stream_salsa20_xor_ic(O, M, l, N24, ICS[q], K); rec("salsa20_xor_ic64", (long) l, q, r, O, l); r = crypto_stream_xsalsa20_xor_ic(O, M, l, N24, ICS[q], K); rec("xsalsa20_xor_ic64", (long) l, q, r, O, l); } }
         r = crypto_stream_chacha20_xor(O + 1, M + 3, l, N24, K); rec("chacha20_xor_unaligned", (long) l, 0, r, O + 1, l);
         r = crypto_stream_salsa20_xor(O + 1, M + 3, l, N24, K); rec("salsa20_xor_unaligned", (long) l, 0, r, O + 1, l);
     }
